@@ -356,6 +356,13 @@ Proof.
   intros ->. exact (nf_true_no_dd _ Hnf Hin).
 Qed.
 
+Theorem clean_segs_ok_rooted s seg : is_rooted s = true -> In seg (clean_segs s) ->
+  seg <> [] /\ seg <> s_dot /\ seg <> s_dotdot /\ ~ In SLASH seg.
+Proof.
+  intros Hr Hin. destruct (clean_segs_ok s seg Hin) as [H1 [H2 H3]].
+  repeat split; try assumption. now apply (clean_segs_rooted_no_dotdot s).
+Qed.
+
 Theorem clean_segs_unrooted_dotdot_prefix s :
   is_rooted s = false ->
   exists k m, clean_segs s = repeat s_dotdot k ++ m /\ Forall (fun seg => seg <> s_dotdot) m.
@@ -1168,3 +1175,141 @@ Theorem join2_assoc a b c : a <> [] -> b <> [] -> c <> [] ->
 Proof.
   intros Ha Hb Hc [H|[H1 H2]]; [now apply join2_assoc_unrooted | now apply join2_assoc_no_up].
 Qed.
+
+(** ** stacking two base paths (C09) *)
+
+Lemma side_nonnil a : (is_rooted a = false -> clean_segs a <> []) -> a <> [].
+Proof. intros H ->. now apply H. Qed.
+
+Lemma clean_segs_join2_no_up a b : a <> [] -> b <> [] -> no_up b ->
+  clean_segs (join2 a b) = clean_segs a ++ clean_segs b.
+Proof.
+  intros Ha Hb Hnb. rewrite clean_segs_join2_both by assumption. rewrite norm_aux_app.
+  fold (clean_segs a). rewrite norm_aux_no_up by exact Hnb. rewrite rev_involutive.
+  now rewrite (clean_segs_no_up b Hnb).
+Qed.
+
+(* BasePathFs(BasePathFs(src, a), b) and BasePathFs(src, Join(a, b)) map a name that never
+   steps up to the same real path, provided b itself never steps up (e.g. b is a cleaned
+   rooted path) *)
+Theorem real_path_stack a b c :
+  (is_rooted a = false -> clean_segs a <> []) ->
+  (is_rooted b = false -> clean_segs b <> []) ->
+  no_up b -> no_up c ->
+  let p := render (is_rooted a) (clean_segs a ++ clean_segs b ++ rel_segs c) in
+  exists q, real_path b c = Some q /\ real_path a q = Some p /\ real_path (join2 a b) c = Some p.
+Proof.
+  intros Hsa Hsb Hnb Hnc p.
+  pose proof (side_nonnil a Hsa) as Ha. pose proof (side_nonnil b Hsb) as Hb.
+  exists (render (is_rooted b) (clean_segs b ++ rel_segs c)).
+  split; [now apply real_path_no_up|].
+  assert (Hnormal : Forall normal_seg (clean_segs b ++ rel_segs c)).
+  { apply Forall_app. split; [rewrite clean_segs_no_up by exact Hnb|]; now apply rel_segs_normal. }
+  assert (Hnf : nf (is_rooted b) (clean_segs b ++ rel_segs c)).
+  { apply normal_nf; [exact Hnormal|]. apply Forall_app. split.
+    - exact (nf_slash_free _ _ (clean_segs_nf b)).
+    - exact (nf_slash_free _ _ (rel_segs_nf c)). }
+  destruct (no_up_render _ _ Hnf Hnormal) as [Erel Hnq]. split.
+  - rewrite real_path_no_up by assumption. now rewrite Erel.
+  - rewrite real_path_no_up; [| |exact Hnc].
+    + rewrite is_rooted_join2_both by exact Ha. rewrite clean_segs_join2_no_up by assumption.
+      unfold p. now rewrite <- app_assoc.
+    + rewrite is_rooted_join2_both by exact Ha. rewrite clean_segs_join2_no_up by assumption.
+      intros Hr E. apply app_eq_nil in E as [E _]. now apply Hsa.
+Qed.
+
+(* without the no_up conditions stacking and joining differ *)
+Example stack_differs_name :   (* a = "/a", b = "/b", c = "../../b/x" *)
+  let a := [SLASH; 97]%N in let b := [SLASH; 98]%N in
+  let c := [DOT; DOT; SLASH; DOT; DOT; SLASH; 98; SLASH; 120]%N in
+  (match real_path b c with Some q => real_path a q | None => None end)
+    = Some [SLASH; 97; SLASH; 98; SLASH; 120]%N             (* "/a/b/x" *)
+  /\ real_path (join2 a b) c = None.
+Proof. vm_compute. auto. Qed.
+
+Example stack_differs_base :   (* a = "/a", b = "/../x", c = "f" *)
+  let a := [SLASH; 97]%N in let b := [SLASH; DOT; DOT; SLASH; 120]%N in let c := [102]%N in
+  (match real_path b c with Some q => real_path a q | None => None end)
+    = Some [SLASH; 97; SLASH; 120; SLASH; 102]%N            (* "/a/x/f" *)
+  /\ real_path (join2 a b) c = Some [SLASH; 120; SLASH; 102]%N.   (* "/x/f" *)
+Proof. vm_compute. auto. Qed.
+
+(** ** BasePathFile.Name : TrimPrefix(real name, Clean(base)) *)
+
+Lemma trim_prefix_app x y : trim_prefix (x ++ y) x = y.
+Proof.
+  unfold trim_prefix. assert (H : prefixb x (x ++ y) = true) by (apply prefixb_spec; now exists y).
+  rewrite H. apply skipn_app_exact.
+Qed.
+
+Lemma trim_prefix_self x : trim_prefix x x = [].
+Proof. rewrite <- (app_nil_r x) at 1. apply trim_prefix_app. Qed.
+
+(* the reported name is "/" + the segments below the base — except for the base "/" (and
+   "."), where the leading separator is lost *)
+Theorem bp_name_shape base name p :
+  real_path base name = Some p ->
+  exists r, clean_segs p = clean_segs base ++ r /\
+    trim_prefix p (clean base) =
+      match clean_segs base, r with
+      | [], _ => join_slash r
+      | _ :: _, [] => []
+      | _ :: _, _ :: _ => SLASH :: join_slash r
+      end.
+Proof.
+  intros H. destruct (real_path_confined_gen _ _ _ H) as [[r Hr] [Hc Hroot]].
+  exists r. split; [exact Hr|].
+  pose proof (clean_fixed_render p Hc) as Ep. rewrite Hroot, Hr in Ep.
+  pose proof (clean_segs_nf base) as Hnf.
+  destruct (clean_segs base) as [|x l] eqn:El.
+  - destruct (is_rooted base) eqn:Erb.
+    + assert (Eb : clean base = [SLASH]) by (unfold clean; now rewrite Erb, El).
+      rewrite Eb, Ep. cbn [app render]. apply (trim_prefix_app [SLASH]).
+    + assert (Ed : p = s_dot) by (apply (real_path_dot_base base name); assumption).
+      assert (Eb : clean base = s_dot) by (unfold clean; now rewrite Erb, El).
+      assert (r = []) as ->.
+      { rewrite Ed in Hr. cbn in Hr. now destruct r. }
+      rewrite Eb, Ed. reflexivity.
+  - assert (Eb : clean base = render (is_rooted base) (x :: l)) by (unfold clean; now rewrite El).
+    destruct r as [|y r].
+    + rewrite app_nil_r in Ep. rewrite Eb, Ep. apply trim_prefix_self.
+    + rewrite render_app in Ep by (assumption || discriminate).
+      rewrite Eb, Ep. apply trim_prefix_app.
+Qed.
+
+Example bp_name_root_quirk :   (* base "/" reports "a/b" for "/a/b", base "/r" reports "/a/b" for "/r/a/b" *)
+  trim_prefix [SLASH; 97; SLASH; 98]%N (clean s_slash) = [97; SLASH; 98]%N /\
+  trim_prefix [SLASH; 114; SLASH; 97; SLASH; 98]%N (clean [SLASH; 114]%N) = [SLASH; 97; SLASH; 98]%N.
+Proof. vm_compute. auto. Qed.
+
+(* cleaning the first element of a join changes nothing *)
+Theorem join2_clean_l a b : a <> [] -> join2 (clean a) b = join2 a b.
+Proof.
+  intros Ha. pose proof (clean_nonnil a) as Hca.
+  rewrite (join2_nonempty_l (clean a)) by exact Hca. rewrite (join2_nonempty_l a) by exact Ha.
+  destruct b as [|c b]; cbn [is_empty]; [apply clean_idempotent|].
+  apply clean_eq_iff. split.
+  - rewrite !is_rooted_app by assumption. apply is_rooted_clean.
+  - rewrite !clean_segs_cat by assumption. rewrite is_rooted_clean.
+    rewrite !norm_aux_app. rewrite norm_split_clean. now rewrite clean_segs_self.
+Qed.
+
+(* cleaning the second element is harmless only if it is unrooted or never steps up *)
+Theorem join2_clean_r a b : a <> [] -> b <> [] -> is_rooted b = false \/ no_up b ->
+  join2 a (clean b) = join2 a b.
+Proof.
+  intros Ha Hb Hcond. pose proof (clean_nonnil b) as Hcb.
+  rewrite !join2_both by assumption. cbn [s_slash app].
+  apply clean_eq_iff. split.
+  - now rewrite !is_rooted_app.
+  - rewrite !clean_segs_cat by assumption. rewrite !norm_aux_app.
+    destruct Hcond as [Hr|Hno].
+    + now rewrite norm_split_clean_unrooted.
+    + rewrite norm_split_clean. rewrite (clean_segs_no_up b Hno).
+      rewrite norm_aux_normal by now apply rel_segs_normal.
+      now rewrite (norm_aux_no_up _ (split_slash b)) by exact Hno.
+Qed.
+
+Example join2_clean_r_fails :   (* a = "a", b = "/.." : "a" versus "." *)
+  join2 [97%N] (clean [SLASH; DOT; DOT]) = [97%N] /\ join2 [97%N] [SLASH; DOT; DOT] = s_dot.
+Proof. vm_compute. auto. Qed.
